@@ -1,14 +1,52 @@
 #!/usr/bin/env python3
 """Regenerate MANIFEST.json from the table below and validate it against the schema."""
 import json, subprocess, sys
+DED = "contract-based deductive verification: AST->VC generator (pyvc) over the real source + z3"
 CLAIMED = {
+ "C01": dict(level="proof",
+   text="Deductive, unbounded: frame invariant (running FCS == fcs_fold(octets), cached control position == ctrl_pos(octets)) established by __init__ and preserved by append; is_valid == valid_frame(octets) "
+        "(statement of C01) via the residue lemma over the bit-serial RFC 1662 definition; accessor contracts for every frame satisfying the invariant; reader invariant with a ghost input stream (raw octets of the "
+        "current frame are a contiguous stream segment right after a flag, octets == unstuff(raw), every returned frame is closed by a flag and starts after the previous one) proved for _read_next and for read() "
+        "through _read_next's contract in the four configurations. The invariant is the induction hypothesis over all histories and chunkings.",
+   note="Trusted: pyvc encoding, z3, prelude contracts for bytearray operations (offset views), ghost stream assumption (chunks are consecutive segments of one stream).",
+   technique=DED + "; class invariant with ghost input history; induction lemmas over recursive spec functions", design="DESIGN.md section 9 C01"),
  "C03": dict(level="proof",
    text="Deductive: contracts on the real FastFrameCheckSequence16 methods and the table generator; VCs generated from the source on every run; "
         "the step function is proved equal to the bit-serial RFC 1662 definition over all 2^24 (register, octet) pairs, byte strings of every length by the loop invariant / recursive fold, "
         "is_good characterised by the residue lemma. No bound.",
    note="Trusted: pyvc encoding of the Python subset, z3; the table is evaluated by the engine's own concrete interpreter from the source text.",
-   technique="contract-based deductive verification: AST->VC generator (pyvc) + z3, bit-vector lemma for the table step, loop invariant over fcs_fold",
-   design="DESIGN.md section 9 C03"),
+   technique=DED + "; bit-vector lemma for the table step, loop invariant over fcs_fold", design="DESIGN.md section 9 C03"),
+ "C04": dict(level="proof",
+   text="Deductive, unbounded in the readout length: CRC loop invariant against the bit-serial CRC-16/ARC definition, __init__ establishes the readout invariant, is_valid postconditions (i)-(iv) taken from the "
+        "statement (including checksum 0000), payload contract, exceptional postconditions; the identification-line pattern is translated from the source into an SMT regular expression and proved equal to the specified language.",
+   note="Assumed (conformance-tested at replay time): bytes.lstrip/find/decode, str.strip as recursive spec functions; int(text,16) abstract with int(4 hex digits) == hexval4; re implements the regular language of the pattern.",
+   technique=DED + "; regex language equivalence in z3's sequence theory", design="DESIGN.md section 9 C04"),
+ "C05": dict(level="other",
+   text="Deductive part (unbounded): P1 reader contracts with ghost input stream - contiguity and byte-identity of returned readouts, identification-line tracking, no complete line left unconsumed, the guard cannot trip while "
+        "unconsumed + collected octets <= 8191, termination, validity of well-formed readouts by C04(iv). The whole-history composition 'every readout of a clean stream exactly once' is a BOUNDED stand-in on the real reader "
+        "(generated clean streams x chunk sizes), labelled bounded and not counted as proved; hence level 'other'.",
+   note="Bounded stand-in: 150 (quick) / 3000 (thorough) generated streams of up to 200 readouts. Assumed prelude contracts as for C04.",
+   technique=DED + " for the per-call contracts; bounded run-time lemma check for the clean-stream composition", design="DESIGN.md section 9 C05"),
+ "C13": dict(level="proof",
+   text="Deductive: per-call contract of data_received over abstract readers/messages with a ghost queue (selection of the first candidate, in list order, that returns a valid message; all messages of the selecting call forwarded; "
+        "later candidates not fed; selected reader fed exactly once per call afterwards), message_received of both protocols against their forwarding predicate; message lists of any length by loop invariants. "
+        "The last sentence of C13 (clean-stream delivery for any candidate order) is NOT decided and stated as such.",
+   note="Assumed: abstract reader/message objects without side effects on the protocol, Queue.put_nowait appends, reader objects truthy; candidate lists of 0..3 readers enumerated (the property's configurations have <= 2).",
+   technique=DED + "; ghost sequence for the queue, recursive spec functions fwd_count / fwd_at", design="DESIGN.md section 9 C13"),
+ "C14": dict(level="proof",
+   text="Deductive: exceptional postcondition 'nothing escapes' on HdlcFrameReader.read/_read_next, ModeDReader.read, HdlcFrame and DataReadout message properties and data_received, from the reader invariants, for every state "
+        "satisfying the invariant and every bytes argument; every implicit failure point of the subset is a safety obligation or a forked exceptional edge that must be infeasible; invariants re-established (reader remains usable).",
+   note="Assumed: logging does not raise; MemoryError/RecursionError out of scope; prelude contracts of the byte/str library functions.",
+   technique=DED + "; generated safety obligations and exceptional edges", design="DESIGN.md section 9 C14"),
+ "C16": dict(level="other",
+   text="Deductive part (unbounded): the state claims of C16 are clauses of the reader invariants and hold after arbitrary input - no escape pending after a flag / frame start / discard, octets == unstuff(raw) restarts at the flag, "
+        "a frame starts only right after a flag, frames never exceed 2047 octets, P1 hunt mode keeps no collected octets. The composition 'every subsequent clean message except possibly the first is delivered' is a BOUNDED stand-in "
+        "(noise prefixes x clean suffixes x chunkings on the real readers), not counted as proved; hence level 'other'.",
+   note="Bounded stand-in: 400/6000 HDLC and 200/3000 P1 histories.", technique=DED + " for the state claims; bounded run-time lemma check for resynchronisation", design="DESIGN.md section 9 C16"),
+ "C19": dict(level="proof",
+   text="Deductive, for every history: size postconditions of read() proved from the reader invariants alone - HDLC: no consumed octet retained (len(buffer) <= len(chunk)), frame <= 2047 octets, raw frame data <= 2*2048+1; "
+        "P1: len(buffer)+len(collected) <= 8191; loop termination measures. A deep-size measurement on long streams runs as an additional bounded cross-check.",
+   note="Retained memory is identified with the reader's byte buffers; per-object interpreter overhead is a constant.", technique=DED + "; size postconditions from class invariants", design="DESIGN.md section 9 C19"),
 }
 NA = {
  "C17": "quantifies over asyncio task schedules and the moment close() lands between await points; per-call sequential contracts cannot express it and no installed deductive back end models the event loop (DESIGN section 9 C17)",
